@@ -10,6 +10,29 @@ from pv.facets import prove_entries
 from pv.sym import Sym, SymInt, sym, symarr
 from pv.util import Z, real_module
 
+
+def _guarded(f):
+    """A facet group that cannot interpret what the (changed) code does is *undecided* (the native searches of the same
+    check still decide), never a checker failure."""
+    import functools
+
+    @functools.wraps(f)
+    def w(run, *a, **k):
+        try:
+            return f(run, *a, **k)
+        except E.UNSUPPORTED_EXC as e:
+            run.undecided(f.__name__, "pydrex.utils", f"unsupported construct: {e}")
+        except (AttributeError, TypeError, IndexError, KeyError, ValueError, ArithmeticError) as e:
+            import traceback
+
+            run.undecided(f.__name__, "pydrex.utils", f"harness could not interpret the code's behaviour: {type(e).__name__}: {e} @ {traceback.format_exc().splitlines()[-3].strip()[:120]}")
+        finally:
+            E.Ctx.cur = None
+            LA.Sigma.cur = None
+            LA.LoopRule.cur = None
+
+    return w
+
 MOD = "pydrex.utils"
 G = LA.G
 H2 = z3.Int("h!")
@@ -121,6 +144,7 @@ def _rp_search(kind, chi, fsym_g, fsym_h, n):
     return replay
 
 
+@_guarded
 def gbs_facets(run, which=("C09", "C01", "C07")):
     """Facets of the real apply_gbs for symbolic n_grains."""
     U = real_module(MOD)
@@ -261,6 +285,7 @@ def nat_extract_case(y, n):
     return dict(ok=not msgs, messages=msgs)
 
 
+@_guarded
 def extract_facets(run):
     U = real_module(MOD)
     fn = f"{MOD}.extract_vars"
